@@ -17,6 +17,11 @@
      fixG  break after matching a cell-method axis given by standard name
      fixH  a construct type with different counts can no longer be "matched"
            through the statement after the loop (for/else)
+   and of the second round, /verif/handoff/C05-fix2-*.diff ([Mid] = with fixA..fixH only):
+     fixI  CellMethod.sorted reorders the intervals only when there is one per axis
+           (it raised IndexError for fewer, and dropped the surplus for more)
+     fixU  _equals_cell_method pairs domain axes that no data span by size
+           (it compared their construct keys as if they were standard names)
 
    Numbers are integers (also in floating-point arrays: the harness generates
    exactly representable values); tolerances are non-negative rationals
@@ -25,9 +30,10 @@ From CfdmV Require Import Common.Base.
 Open Scope Z_scope.
 
 Record variant := mkV { fixA : bool; fixB : bool; fixC : bool; fixD : bool;
-                        fixE : bool; fixG : bool; fixH : bool }.
-Definition New := mkV true true true true true true true.
-Definition Old := mkV false false false false false false false.
+                        fixE : bool; fixG : bool; fixH : bool; fixI : bool; fixU : bool }.
+Definition New := mkV true true true true true true true true true.
+Definition Mid := mkV true true true true true true true false false.
+Definition Old := mkV false false false false false false false false false.
 
 (* ignore_properties: None, a string, or a sequence of strings *)
 Inductive ignp := IPNone | IPStr (s : string) | IPSeq (l : list string).
@@ -134,7 +140,7 @@ Record data := mkD { d_arr : arr; d_fill : option Z; d_units : option string;
 Definition data_eq (r a : Z * Z) (idt ifv icomp : bool) (x y : data) : bool :=
   list_eqb Z.eqb (a_shape (d_arr x)) (a_shape (d_arr y)) &&
   (ifv || option_eqb Z.eqb (d_fill x) (d_fill y)) &&
-  (idt || (a_tag (d_arr x) =? a_tag (d_arr y))) &&
+  (idt || (a_tag (d_arr x) =? a_tag (d_arr y)) || (a_str (d_arr x) && a_str (d_arr y))) &&
   option_eqb String.eqb (d_units x) (d_units y) &&
   option_eqb String.eqb (d_cal x) (d_cal y) &&
   (icomp || (String.eqb (d_ctype x) (d_ctype y) &&
@@ -418,41 +424,56 @@ Fixpoint remove1 (s : string) (l : list string) : list string :=
 Fixpoint index_of (s : string) (l : list string) : nat :=
   match l with [] => 0%nat | x :: r => if String.eqb s x then 0%nat else S (index_of s r) end.
 
-Inductive scan := SFalse | SDone (axes1 : list string) (indices : list nat).
+Inductive scan := SFalse | SDone (axes1 : list string) (indices : list nat) (a0to1 m10 : amap).
+
+(* DomainAxis.get_size(-1) of the domain axis with this key *)
+Definition axsize (ax : list (string * option Z)) (k : string) : Z :=
+  match assoc k ax with Some (Some n) => n | _ => -1 end.
 
 (* `for axis1 in axes1:` with axes1 modified inside the loop: Python's list
-   iterator is a position i that is re-checked against the current length *)
-Fixpoint scan_axes1 (v : variant) (a0to1 m10 : amap) (orig : list string) (axis0 : string)
+   iterator is a position i that is re-checked against the current length.
+   ax0 / ax1: the domain axes of the two collections (fixU). *)
+Fixpoint scan_axes1 (v : variant) (ax0 ax1 : list (string * option Z)) (a0to1 m10 : amap)
+         (orig : list string) (axis0 : string)
          (fuel : nat) (i : nat) (axes1 : list string) (indices : list nat) : scan :=
   match fuel with
-  | O => SDone axes1 indices
+  | O => SDone axes1 indices a0to1 m10
   | S fuel' =>
       match nth_error axes1 i with
-      | None => SDone axes1 indices
+      | None => SDone axes1 indices a0to1 m10
       | Some axis1 =>
           let in0 := mem axis0 (keys a0to1) in
           let in1 := mem axis1 (keys m10) in
+          let k0 := mem axis0 (keys ax0) in
+          let k1 := mem axis1 (keys ax1) in
           if in0 && in1 then
             if option_eqb String.eqb (Some axis1) (assoc axis0 a0to1)
-            then SDone (remove1 axis1 axes1) (indices ++ [index_of axis1 orig])
-            else scan_axes1 v a0to1 m10 orig axis0 fuel' (S i) axes1 indices
+            then SDone (remove1 axis1 axes1) (indices ++ [index_of axis1 orig]) a0to1 m10
+            else scan_axes1 v ax0 ax1 a0to1 m10 orig axis0 fuel' (S i) axes1 indices
           else if in0 || in1 then SFalse
+          else if fixU v && (k0 || k1) then
+            (* at least one is a domain axis that no data span *)
+            if k0 && k1 && (axsize ax0 axis0 =? axsize ax1 axis1)
+            then SDone (remove1 axis1 axes1) (indices ++ [index_of axis1 orig])
+                       (a0to1 ++ [(axis0, axis1)]) (m10 ++ [(axis1, axis0)])
+            else scan_axes1 v ax0 ax1 a0to1 m10 orig axis0 fuel' (S i) axes1 indices
           else if String.eqb axis0 axis1 then
-            if fixG v then SDone (remove1 axis1 axes1) (indices ++ [index_of axis1 orig])
-            else scan_axes1 v a0to1 m10 orig axis0 fuel' (S i) (remove1 axis1 axes1)
+            if fixG v then SDone (remove1 axis1 axes1) (indices ++ [index_of axis1 orig]) a0to1 m10
+            else scan_axes1 v ax0 ax1 a0to1 m10 orig axis0 fuel' (S i) (remove1 axis1 axes1)
                             (indices ++ [index_of axis1 orig])
-          else scan_axes1 v a0to1 m10 orig axis0 fuel' (S i) axes1 indices
+          else scan_axes1 v ax0 ax1 a0to1 m10 orig axis0 fuel' (S i) axes1 indices
       end
   end.
 
-Fixpoint scan_axes0 (v : variant) (a0to1 m10 : amap) (orig : list string)
-         (axes0 : list string) (axes1 : list string) (indices : list nat) : option (list nat) :=
+Fixpoint scan_axes0 (v : variant) (ax0 ax1 : list (string * option Z)) (a0to1 m10 : amap)
+         (orig : list string) (axes0 : list string) (axes1 : list string) (indices : list nat)
+  : option (list nat * amap * amap) :=
   match axes0 with
-  | [] => Some indices
+  | [] => Some (indices, a0to1, m10)
   | axis0 :: r =>
-      match scan_axes1 v a0to1 m10 orig axis0 (S (length axes1)) 0 axes1 indices with
+      match scan_axes1 v ax0 ax1 a0to1 m10 orig axis0 (S (length axes1)) 0 axes1 indices with
       | SFalse => None
-      | SDone axes1' indices' => scan_axes0 v a0to1 m10 orig r axes1' indices'
+      | SDone axes1' indices' a' m' => scan_axes0 v ax0 ax1 a' m' orig r axes1' indices'
       end
   end.
 
@@ -466,34 +487,45 @@ Fixpoint pick {A} (l : list A) (idx : list nat) : option (list A) :=
               end
   end.
 
-Definition sorted_intervals (c : cmeth) (indices : list nat) : result (list data) :=
+Definition sorted_intervals (v : variant) (c : cmeth) (indices : list nat) : result (list data) :=
   if Nat.eqb (length (m_axes c)) 1 then Ok (m_intervals c)
-  else if Nat.leb (length (m_intervals c)) 1 then Ok (m_intervals c)
+  else if (if fixI v then negb (Nat.eqb (length (m_intervals c)) (length (m_axes c)))
+           else Nat.leb (length (m_intervals c)) 1) then Ok (m_intervals c)
   else match pick (m_intervals c) indices with Some l => Ok l | None => Err IndexErr end.
 
-Definition one_cm_eq (v : variant) (o : opts) (a0to1 m10 : amap) (c0 c1 : cmeth) : result bool :=
-  if negb (Nat.eqb (length (m_axes c0)) (length (m_axes c1))) then Ok false
-  else match scan_axes0 v a0to1 m10 (m_axes c1) (m_axes c0) (m_axes c1) [] with
-       | None => Ok false
-       | Some indices =>
-           if negb (Nat.eqb (length (m_axes c1)) (length indices)) then Ok false
-           else rbind (sorted_intervals c1 indices) (fun iv =>
-                Ok (cm_eq o c0 (mkM (m_axes c0) (m_method c1) (m_quals c1) iv)))
+(* one pair of cell methods: None = different; Some = equal, with the axis maps as
+   extended by the domain axes that no data span (fixU) *)
+Definition one_cm_eq (v : variant) (o : opts) (ax0 ax1 : list (string * option Z)) (a0to1 m10 : amap)
+           (c0 c1 : cmeth) : result (option (amap * amap)) :=
+  if negb (Nat.eqb (length (m_axes c0)) (length (m_axes c1))) then Ok None
+  else match scan_axes0 v ax0 ax1 a0to1 m10 (m_axes c1) (m_axes c0) (m_axes c1) [] with
+       | None => Ok None
+       | Some (indices, a', m') =>
+           if negb (Nat.eqb (length (m_axes c1)) (length indices)) then Ok None
+           else rbind (sorted_intervals v c1 indices) (fun iv =>
+                Ok (if cm_eq o c0 (mkM (m_axes c0) (m_method c1) (m_quals c1) iv)
+                    then Some (a', m') else None))
        end.
 
-Fixpoint cms_zip_eq (v : variant) (o : opts) (a0to1 m10 : amap) (l0 l1 : list (string * cmeth))
-  : result bool :=
+Fixpoint cms_zip_eq (v : variant) (o : opts) (ax0 ax1 : list (string * option Z)) (a0to1 m10 : amap)
+         (l0 l1 : list (string * cmeth)) : result bool :=
   match l0, l1 with
-  | (_, c0) :: r0, (_, c1) :: r1 => andR (one_cm_eq v o a0to1 m10 c0 c1) (cms_zip_eq v o a0to1 m10 r0 r1)
+  | (_, c0) :: r0, (_, c1) :: r1 =>
+      match one_cm_eq v o ax0 ax1 a0to1 m10 c0 c1 with
+      | Err e => Err e
+      | Ok None => Ok false
+      | Ok (Some (a', m')) => cms_zip_eq v o ax0 ax1 a' m' r0 r1
+      end
   | _, _ => Ok true
   end.
 
 Definition swap {A B} (p : A * B) : B * A := (snd p, fst p).
 
-Definition cms_eq (v : variant) (o : opts) (m10 : amap) (l0 l1 : list (string * cmeth)) : result bool :=
+Definition cms_eq (v : variant) (o : opts) (ax0 ax1 : list (string * option Z)) (m10 : amap)
+           (l0 l1 : list (string * cmeth)) : result bool :=
   if negb (Nat.eqb (length l0) (length l1)) then
     (if fixA v then Ok false else Err TypeErr)          (* logger(...) *)
-  else cms_zip_eq v o (map swap m10) m10 l0 l1.
+  else cms_zip_eq v o ax0 ax1 (map swap m10) m10 l0 l1.
 
 (* ---- _equals_coordinate_reference --------------------------------------------------- *)
 Definition k1to0 (ps : kpairs) (k : string) : string :=
@@ -541,7 +573,7 @@ Definition constructs_eq (v : variant) (o : opts) (x y : field) : result bool :=
             | Err e => Err e
             | Ok None => Ok false
             | Ok (Some (m01, m10)) =>
-                andR (cms_eq v o m10 (f_cms x) (f_cms y))
+                andR (cms_eq v o (f_axes x) (f_axes y) m10 (f_cms x) (f_cms y))
                 (andR (sizes_eq v (f_axes x) (f_axes y))
                       (crs_eq o ps (f_crs x) (f_crs y)))
             end
